@@ -182,6 +182,40 @@ def pair_history(rng, steps, c):
             st["pix2"] = [row[:] for row in st["pix"]]
 
 
+def chain_ffc_in_recording(rng):
+    """processor-chain pair: two streams with different scenes before an FFC period that lies wholly inside a recording
+    running at its maximum length (min-secs = max-secs), identical from the first affected frame on; after the period
+    the scene returns to stream 1's old level, so any comparison with pre-period frames shows as motion in stream 2 only"""
+    w, h = rng.randint(3, 5), rng.randint(3, 4)
+    c = dict(W=w, H=h, Edge=0, T=rng.choice([5, 1000]), Delta=rng.choice([5, 30]), Cnt=1, Gap=rng.choice([1, 2, 3]),
+             One=rng.random() < 0.5, Warmer=False, Dyn=False, Tmin=0, Tmax=0, Preview=0)
+    L = c["T"] + rng.choice([100, 500])
+    L2 = L + rng.choice([200, 1000])
+    M = rng.randint(13, 17)
+    steps = []
+    def fr(v, age, v2=None, hot=False):
+        p1 = [[v] * w for _ in range(h)]
+        p2 = [[(v if v2 is None else v2)] * w for _ in range(h)]
+        if hot:
+            p1[1][1] += 2000; p2[1][1] += 2000
+        return dict(a="frame", pix=p1, pix2=p2, ffcAge=age)
+    npre = rng.randint(4, 7)
+    for k in range(npre):
+        steps.append(fr(L, 60000, L2))
+    steps.append(fr(L, 60000, L2, hot=True))                   # trigger in both streams: the recording runs M frames
+    nin = rng.randint(0, 2)
+    for k in range(nin):
+        steps.append(fr(L, 60000, L2))
+    nper = rng.randint(1, 9)
+    P = L + 3000                                               # the period itself sits at another level (same in both)
+    for k in range(nper):
+        steps.append(fr(P, rng.choice([0, 1000, 9999])))
+    rest = M - 1 - nin - nper                                  # frames of the recording left after the period
+    for k in range(max(0, rest) + rng.randint(3, 8)):
+        steps.append(fr(L, 60000))
+    return dict(cfg=c, fps=1, preview_secs=rng.choice([0, 1]), min_secs=M, max_secs=M, trig=1, steps=steps, kind="history")
+
+
 def gen_across(rng):
     """targeted C09 pair: identical from the first FFC-affected frame on, different scene level before it; the
     frames after the period sit at the level of stream 1's past, so a comparison across the period shows up as
@@ -367,6 +401,17 @@ def run(ctx):
                                   event=line - 1 - starts[si], observed=events[line - 1]))
             violations.append(dict(key=key, replay=rp, what="script %d (%s, kind=%s) event %d cfg=%s" % (
                 si, scripts[si]["origin"], scripts[si]["kind"], line - 1 - starts[si], json.dumps(scripts[si]["cfg"]))))
+    raw_level = {}
+    if prop == "C08":
+        # the parser in front of the detector: border zeros (the one value the parsers single out) must not decide
+        # whether a frame is accepted; judged by RawFrame.tla on the bytes fed to the parser the daemon selects
+        import fam_proc
+        rv, raw_level = fam_proc.raw_frames(ctx, tier, prop="C08")
+        for v in rv:
+            if v["key"].startswith("C08:"):
+                violations.append(v)
+            else:
+                others[v["key"]] = others.get(v["key"], 0) + 1
     proc_level = {}
     if prop == "C09":
         # the 'clear' path as the daemon takes it: MotionProcessor.Reset (which also has to stop the recording, possibly
@@ -393,14 +438,16 @@ def run(ctx):
                     violations.append(dict(key=t, replay=rp, what="processor-level event %s" % json.dumps(pevents[line - 1])[:200]))
         proc_level = dict(events=pnev, resets=sum(1 for e in pevents if e.get("ev") == "reset"))
     chain_stats = {}
-    if prop == "C15":
-        # last clause: the background and threshold stored with a recording are the ones in force at its trigger -
-        # through the real MotionProcessor and, optionally, the real ThrottledRecorder (cuts and mid-trigger restarts)
+    if prop in ("C07", "C09", "C15"):
+        # the detector as the real MotionProcessor drives it (Process / Reset, with storage stop failures on resets that
+        # interrupt a recording), optionally through the real ThrottledRecorder (cuts and mid-trigger restarts).
+        # C15 last clause: the background and threshold stored with a recording are the ones in force at its trigger.
         rng = ctx.rng
         cs = []
         for i in range(60 if tier == "quick" else 1200):
-            c = rand_cfg(rng, dyn=True)
-            c["Cnt"], c["Gap"], c["One"] = 1, 1, True
+            c = rand_cfg(rng, dyn=(prop == "C15" or (prop == "C09" and rng.random() < 0.5)))
+            if prop == "C15" or rng.random() < 0.5:
+                c["Cnt"], c["Gap"], c["One"] = 1, 1, True
             fps = rng.choice([1, 2, 3])
             sc = dict(cfg=c, fps=fps, preview_secs=rng.choice([0, 1]), min_secs=rng.choice([0, 1, 2]), max_secs=rng.choice([2, 3, 5]),
                       trig=rng.choice([0, 1, 2]), steps=gen_stream(rng, c, rng.randint(25, 70), ffc=rng.random() < 0.3))
@@ -425,6 +472,17 @@ def run(ctx):
                             pix[y][x] = L + 1000
                     steps.append(dict(a="frame", pix=pix, ffcAge=60000))
                 sc["steps"] = steps
+            if prop in ("C07", "C09") and i % 5 == 2:
+                sc = chain_ffc_in_recording(rng)
+            # camera resets, also in the middle of recordings, whose StopRecording storage call may fail
+            st2 = []
+            for k, st in enumerate(sc["steps"]):
+                if st["a"] == "reset":
+                    st = dict(st, stopFail=rng.random() < 0.5)
+                st2.append(st)
+                if st["a"] == "frame" and k > 4 and rng.random() < (0.06 if i % 2 else 0.0):
+                    st2.append(dict(a="reset", stopFail=rng.random() < 0.7))
+            sc["steps"] = st2
             cs.append(sc)
         binm = ctx.go_test_build("./motion", "motion.test")
         inp, outp = ctx.path("run", "chain.json"), ctx.path("run", "chain.ndjson")
@@ -437,13 +495,18 @@ def run(ctx):
         cev = vlib.read_ndjson(outp)
         for (line, tags) in cviol:
             for t in tags:
-                if t.startswith("C15:") and t not in seen:
+                if t.startswith("ANY:"):
+                    t = prop + t[3:]
+                if t.startswith(prop + ":") and t not in seen:
                     seen.add(t)
                     e = cev[line - 1]
-                    rp = vlib.save_replay(ctx, t.replace(":", "_"), dict(family="detect", property="C15", clause=t,
+                    rp = vlib.save_replay(ctx, t.replace(":", "_"), dict(family="detect", property=prop, clause=t,
                                           observed={k: e[k] for k in e if k not in ("bg", "det_bg")}))
                     violations.append(dict(key=t, replay=rp, what=json.dumps({k: e[k] for k in e if k not in ("bg", "det_bg")})))
         chain_stats = dict(scripts=len(cs), starts_observed=sum(1 for e in cev if e["ev"] == "sstart"),
+                           frames=sum(1 for e in cev if e["ev"] == "dframe"),
+                           resets_while_recording=sum(1 for e in cev if e["ev"] == "dreset" and e.get("while_recording")),
+                           resets_with_failed_stop=sum(1 for e in cev if e["ev"] == "dreset" and e.get("stop_failed")),
                            through_throttle=sum(1 for s in cs if "throttle" in s))
     rej, acc = conform(ctx, trace)
     conf = dict(events_accepted=acc, rejected_at=None)
@@ -466,7 +529,7 @@ def run(ctx):
                     rule="TLC -simulate behaviours of the design model (4x3) + seeded boundary-biased streams 3x3..8x6 "
                          "(values at T, T+-1, delta, delta+-1, count-1/count/count+1 pixels, 0/65535 borders, FFC periods, "
                          "resets, paired streams); distinct by (cfg, steps)",
-                    conformance=conf, clauses_of_other_properties_fired=others, processor_level_resets=proc_level,
+                    conformance=conf, clauses_of_other_properties_fired=others, processor_level_resets=proc_level, raw_parser_frames=raw_level,
                     recording_start_arguments=chain_stats)
     return vlib.finish(ctx, violations, coverage, ASSUME)
 
